@@ -116,6 +116,16 @@ def run_case(spec):
         for k in rep[q]:
             if not np.array_equal(rep[q][k], rep2[q][k], equal_nan=True):
                 vs.append(V("report-not-repeatable", f"{spec['c13']}: second call of the {q} report for {k} differs from the first", None))
+    # the caller goes on to edit the instructions / program set it passed in (e.g. a budget sweep): the finished result must keep reporting what produced it
+    w.instr.alloc["P1"] = at.TimeSeries([S0, S0 + 1.2], [5.0, 7777.0])
+    w.instr.coverage["P1"] = at.TimeSeries([S0], [0.99])
+    w.instr.capacity["P1"] = at.TimeSeries([S0], [1.0])
+    w.progset.programs["P1"].unit_cost.insert(S0, 123.0)
+    rep3 = dict(fraction=r.get_coverage("fraction"), capacity=r.get_coverage("capacity"), eligible=r.get_coverage("eligible"), number=r.get_coverage("number"), alloc=r.get_alloc())
+    for q in rep:
+        for k in rep[q]:
+            if not np.array_equal(rep[q][k], rep3[q][k], equal_nan=True):
+                vs.append(V("report-follows-callers-later-edits", f"{spec['c13']}: after the caller edited the instructions / program set it had passed in, the finished result reports a different {q} for {k}", None))
     after = arrays(r)
     for k in before:
         if not np.array_equal(before[k], after[k], equal_nan=True):
